@@ -98,6 +98,15 @@ def sample_configs(rng, n_random, n_deferr, n_fkwo, max_fields=5):
             fs[pos][k] = v
             o = dict(OPT_DEFAULT, order=True, uhash=True)
             add(o, fs)
+    # edges of the parameter-order rule and of keyword-only classes
+    def fl(ty, dflt, **kw):
+        return dict(default_field(ty), dflt=dflt, **kw)
+    add(dict(OPT_DEFAULT), [fl("obj", "value", init=False), fl("long", "none")])
+    add(dict(OPT_DEFAULT), [fl("str", "factory", init=False), fl("obj", "none"), fl("long", "value")])
+    add(dict(OPT_DEFAULT, kwo=True), [fl("long", "value"), fl("obj", "none")])
+    add(dict(OPT_DEFAULT, kwo=True), [])
+    add(dict(OPT_DEFAULT, kwo=True), [fl("obj", "value", init=False), fl("double", "factory", init=False)])
+    add(dict(OPT_DEFAULT, order=True, frozen=True), [fl("double", "none"), fl("str", "none", cmp=False), fl("long", "value")])
     systematic = len(out)
     # random points of the product
     want_ok, want_err, want_kwo = n_random, n_deferr, n_fkwo
